@@ -58,6 +58,10 @@ func directed() [][]Op {
 		{wsv(0, clusterIP), wsl(0, one(0, 1, 0, 0)), drain(), wsl(0, SliceV{Svc: 0, NPorts: 1}), drain(), wp(0, ready(1, 0, 1)), drain()},
 		// 20: slice deleted while waiting for its pod
 		{wsv(0, clusterIP), wsl(0, one(0, 1, 0, 0)), drain(), del(1, 0), drain(), wp(0, ready(1, 0, 1)), drain()},
+		// 21: endpoint removed from a slice while waiting for a pod that never arrives: nothing may stay in needResync
+		{wsv(0, clusterIP), wsl(0, one(0, 1, 0, 0)), drain(), wsl(0, SliceV{Svc: 0, NPorts: 1}), drain()},
+		// 22: same, the slice is deleted
+		{wsv(0, clusterIP), wsl(0, one(0, 1, 0, 0)), drain(), del(1, 0), drain()},
 	}
 }
 
